@@ -13,6 +13,8 @@
  *     file size=ok|BAD prefix=ok|BAD tail=ok|BAD:<off> suffix=ok|BAD used=<bytes>   the page before the offset untouched, bytes after the
  *                                        used area still 0, the page stored after offset+len (another user of the file) still there
  *     reject <case> rc= errno=           adoption with a wrong argument / header / busy range
+ *     rejectsweep <field> tried= einval= every single-bit flip of header_version, header_length, mmap_address, mmap_length and of the stored
+ *                                        topology ABI (plus abi+-1, +-0x100, 0x38000, other majors): all must give EINVAL; the others are "reject" lines
  *     adopt rc= errno=
  *     obscmp same|DIFF ...               observation of the adopted copy (in a grandchild: a fault is a result)
  *     B <dump>                           canonical dump of the adopted copy (wf_check by the driver)
@@ -181,6 +183,35 @@ static int rej_table(void *a)
     pread(d->fd, &v, 4, (off_t)d->off + 4);                       /* header_length: where the topology (its abi first) starts */
     { uint32_t abi; pread(d->fd, &abi, 4, (off_t)(d->off + v)); abi ^= 0x10000; pwrite(fd2, &abi, 4, (off_t)(d->off + v)); }
     try_adopt(fd2, d->off, d->addr, d->len, 0, "topology-abi");
+    { /* systematic corruption: every single-bit flip of each header field and of the stored ABI, and neighbouring / other ABI values:
+         each must be refused with EINVAL.  One summary line per field, one "reject" line per corruption that is not. */
+      static const struct { const char *name; unsigned fo, bytes; int in_topology; } F[] = {
+        { "version", 0, 4, 0 }, { "hlen", 4, 4, 0 }, { "address", 8, 8, 0 }, { "length", 16, 8, 0 }, { "abi", 0, 4, 1 } };
+      unsigned fi, bit; uint32_t hl = v, abi0;
+      pread(d->fd, &abi0, 4, (off_t)(d->off + hl)); pwrite(fd2, &abi0, 4, (off_t)(d->off + hl));        /* undo the flip above */
+      for (fi = 0; fi < 5; fi++) {
+        off_t at = (off_t)d->off + (F[fi].in_topology ? hl : 0) + F[fi].fo; unsigned char orig[8], cur[8]; unsigned tried = 0, einval = 0, k; uint32_t extra[12]; unsigned nextra = 0;
+        pread(d->fd, orig, F[fi].bytes, at);
+        if (F[fi].in_topology) {
+          extra[nextra++] = abi0 + 1; extra[nextra++] = abi0 - 1; extra[nextra++] = abi0 + 0x100; extra[nextra++] = abi0 - 0x100; extra[nextra++] = 0x38000;
+          extra[nextra++] = 0x20000; extra[nextra++] = 0x40000; extra[nextra++] = 0; extra[nextra++] = 0xffffffffu; extra[nextra++] = abi0 | 0xffff; extra[nextra++] = 0x30000 + 0x8000 + 1;
+        }
+        for (k = 0; k < F[fi].bytes * 8 + nextra; k++) {
+          hwloc_topology_t b = NULL; int rc, e; char nm[48];
+          memcpy(cur, orig, F[fi].bytes);
+          if (k < F[fi].bytes * 8) { bit = k; cur[bit / 8] ^= (unsigned char)(1u << (bit % 8)); snprintf(nm, sizeof nm, "%s-bit%u", F[fi].name, bit); }
+          else { uint32_t x = extra[k - F[fi].bytes * 8]; if (x == abi0) continue; memcpy(cur, &x, 4); snprintf(nm, sizeof nm, "%s-value0x%x", F[fi].name, x); }
+          pwrite(fd2, cur, F[fi].bytes, at);
+          errno = 0; rc = hwloc_shmem_topology_adopt(&b, fd2, d->off, d->addr, d->len, 0); e = errno;
+          tried++;
+          if (rc < 0 && e == EINVAL) einval++;
+          else printf("reject %s rc=%d errno=%s\n", nm, rc, rc < 0 ? hwv_errno_class(e) : "0");
+          if (!rc) hwloc_topology_destroy(b);
+        }
+        pwrite(fd2, orig, F[fi].bytes, at);
+        printf("rejectsweep %s tried=%u einval=%u\n", F[fi].name, tried, einval);
+      }
+    }
     close(fd2); (void)buf; (void)sb; }
   return 0;
 }
